@@ -331,12 +331,15 @@ Stale(p, f, key) ==
 FinalOK(p, f) == \A key \in CmdKeys(p) : Stale(p, f, key) = {}
 
 \* KF F10a: under backpressure a value command with an EMPTY body is not kept (the buffer being
-\* empty means "nothing pending"), so the newest command(s), all empty, never reach the lane
+\* empty means "nothing pending"): it never reaches the lane, nor does the pending command it
+\* overwrote
 IsF10a(p, f) ==
     /\ "F10a" \in p.enabled /\ p.kind = "value"
     /\ \A key \in CmdKeys(p) :
          LET st == Stale(p, f, key) IN
-         \A j \in st : p.cmds[j].op.v = "" \/ \E j2 \in st : HB(p, f, j, j2)
+         \A j \in st : \/ p.cmds[j].op.v = ""
+                       \/ \E j2 \in st : HB(p, f, j, j2)                                    \* superseded anyway
+                       \/ \E j2 \in st : p.cmds[j2].op.v = "" /\ j2 # j /\ ~HB(p, f, j2, j) \* wiped by the empty one
 
 CheckCommands(p) ==
     LET M == Matchings(p) IN
